@@ -484,7 +484,7 @@ Qed.
 
 Theorem step_inv : forall cfg st e, cfg_ok cfg -> inv cfg st -> inv cfg (fst (step cfg st e)).
 Proof.
-  intros cfg st e Hok Hi. destruct e as [|i|i login|i|i pw|i|i|i|i|i|i| |i|i login].
+  intros cfg st e Hok Hi. destruct e as [|i|i login|i|i pw|i|i|i|i|i|i|i| |i|i login].
   - (* Connect *) cbn. constructor; cbn; try apply Hi.
     + eapply ctr_same; [apply Hi|]. rewrite cnt_app. cbn. lia.
     + intros u usr c H1 H2. eapply ctr_same; [eapply (inv_users _ _ Hi); eassumption|].
@@ -529,6 +529,10 @@ Proof.
     + intros u0. unfold held_user. cbn. now rewrite Eu.
     + unfold sess_wf; cbn. split; [intros u0 Hu0; apply W1; congruence|]. split; [|assumption].
       intros Hc. split; [apply W2; assumption|discriminate].
+  - (* PassErr *)
+    cbn. destruct (live_sess st i) as [s|] eqn:El; [|assumption].
+    destruct (s_user s); [|assumption]. destruct (s_logged s); [assumption|].
+    cbn. apply end_session_inv; assumption.
   - (* Other *) assumption.
   - (* Quit *) cbn. destruct (live_sess st i); [|assumption]. cbn. apply end_session_inv; assumption.
   - cbn. apply end_session_inv; assumption.
